@@ -38,7 +38,7 @@ RULE = ('schedules: each seeded API-built design (gen_designs + renaming through
         'sharing one enable) is rebuilt in fresh subprocesses under PYTHONHASHSEED x allocation-noise configurations; '
         'sha256 of output_to_verilog, output_verilog_testbench, print_vcd, print_trace text and of the Simulation and '
         'FastSimulation traces compared across configurations (address-space randomisation off, so a configuration replays); 9 pass pipelines compared by Output traces; 23 export/analysis calls '
-        'checked read-only by fingerprint + Output trace. A case = (design, configuration, exporter|pipeline|call); '
+        'checked read-only by fingerprint + Output trace under Simulation and FastSimulation (ROM-only designs with list / dict / function romdata: every ROM address swept, output_to_firrtl called with rom_blocks=); designs of class samename carry distinct memories with EQUAL names (build_new_roms clones, duplicate MemBlock / RomBlock names). A case = (design, configuration, exporter|pipeline|call); '
         'distinct by (design, observed wirevector_set order, exporter); non-trivial when the design has >= 8 wires '
         'and the configuration produced a set order not seen before for that design. Model tie: generated names '
         '(digit runs with/without leading zeros, reserved words, punctuation, 1024/1025-char names) through the real '
@@ -728,6 +728,8 @@ def search_readonly(ctx, res, specs):
             if 'worker_error' in r:
                 ctx.model_mismatch('harness: read-only run of %s raised %s' % (key, r['worker_error'][-300:]), {'design': spec})
                 continue
+            ctx.count('readonly_design_class', spec['cls'])
+            ctx.count('fastsim_equals_sim_readonly(informational, C02)', r.get('fast_equals_sim'))
             for c in r['calls']:
                 ctx.case((key, cfg, c['call']), nontrivial=True,
                          sample={'design': spec, 'call': c['call'], 'config': list(cfg), 'fingerprint_same': c.get('fp_same'),
@@ -741,7 +743,14 @@ def search_readonly(ctx, res, specs):
                     ctx.spec_violation('export-mutates:%s' % c['call'],
                                        'after %s the block no longer simulates: %s' % (c['call'], c['post_error']), rep)
                     continue
-                if c.get('beh_same') is False:
+                if c['call'].startswith('output_to_firrtl(rom_blocks'):
+                    ctx.count('firrtl_rom_blocks_romdata', ','.join(r.get('rom_kinds', [])))
+                if c.get('beh_same') is False or c.get('beh_same_fast') is False:
+                    which = 'Simulation' if c.get('beh_same') is False else 'FastSimulation'
+                    ctx.spec_violation('export-mutates:%s' % c['call'],
+                                       '%s changed the behaviour of the block it read (Output traces under %s differ: %s)'
+                                       % (c['call'], which, json.dumps(c.get('diff') or c.get('diff_fast'))[:300]), rep)
+                elif False:
                     ctx.spec_violation('export-mutates:%s' % c['call'],
                                        '%s changed the behaviour of the block it read (Output traces differ: %s)'
                                        % (c['call'], json.dumps(c.get('diff'))[:300]), rep)
@@ -758,7 +767,7 @@ def run(ctx):
     t0 = time.time()
     tie_names(ctx)
     ctx.notes.append('tie_names %.1fs' % (time.time() - t0))
-    classes = ['plain', 'sani', 'zeros', 'both', 'memtie', 'plain']
+    classes = ['plain', 'sani', 'zeros', 'both', 'memtie', 'samename']
     specs = make_specs(ctx, 60 if quick else 240, 'e', classes)
     configs = make_configs(ctx, 4 if quick else 8, [0, 2, 5] if quick else [0, 1, 3, 7])
     exp_res, textdir = run_workers(ctx, 'export', specs, configs, batch=30 if quick else 60, tag='exp')
@@ -774,7 +783,7 @@ def run(ctx):
     pres, _ = run_workers(ctx, 'passes', pspecs, pconfigs, batch=3 if quick else 20, tag='pass')
     search_passes(ctx, pres, pspecs)
     ctx.notes.append('passes done at %.1fs' % (time.time() - t0))
-    rspecs = make_specs(ctx, 24 if quick else 120, 'r', ['plain', 'both', 'memtie', 'sani'])
+    rspecs = make_specs(ctx, 24 if quick else 120, 'r', ['plain', 'romonly', 'memtie', 'romonly', 'both', 'samename'])
     rconfigs = make_configs(ctx, 2 if quick else 4, [0, 3])
     rres, _ = run_workers(ctx, 'readonly', rspecs, rconfigs, batch=12 if quick else 30, tag='ro')
     search_readonly(ctx, rres, rspecs)
